@@ -5,7 +5,7 @@ usage: keep.py <name> <property> <worktree> <patch.diff> <demo.py> "<what it nee
 
 Confirms, in the scratch worktree (never in /repo): the patch applies to HEAD, the existing
 suite passes with it, the demo fails with it and passes without it.  Then runs the property's
-quick check against /repo with the patch applied (and restores /repo), and writes meta.json.
+quick check against the worktree with the patch applied (VERIF_REPO), and writes meta.json.
 """
 import json, os, shutil, subprocess, sys, time
 
@@ -39,14 +39,14 @@ tests_ok = " passed" in rt.stdout and "failed" not in rt.stdout
 print("demo without patch rc=%d, with patch rc=%d, tests: %s" % (r0.returncode, r1.returncode, rt.stdout.strip().splitlines()[-1] if rt.stdout.strip() else "?"))
 if not (r0.returncode == 0 and r1.returncode != 0 and tests_ok):
     print("NOT CONFIRMED"); sys.exit(1)
-# run the check against /repo with the patch applied
-assert sh("git diff --quiet", cwd="/repo").returncode == 0, "/repo dirty"
-sh("git apply " + patch, cwd="/repo")
+# run the check against the scratch worktree with the patch applied (VERIF_REPO; /repo itself
+# is never touched)
+sh("git apply " + patch, cwd=wt)
 t0 = time.time()
 try:
-    rc = sh("./check %s --tier quick" % prop, cwd="/verif", timeout=1800, env=dict(os.environ, VERIF_EVIDENCE_DIR="/tmp/vp-mutant-evidence"))
+    rc = sh("./check %s --tier quick" % prop, cwd="/verif", timeout=1800, env=dict(os.environ, VERIF_REPO=wt, VERIF_EVIDENCE_DIR="/tmp/vp-mutant-evidence"))
 finally:
-    sh("git checkout -- .", cwd="/repo")
+    sh("git checkout -- src", cwd=wt)
 lines = [l[:300] for l in rc.stdout.splitlines() if l.startswith(("VIOLATION", "KNOWN-FINDING", "DRIFT", "MACHINERY", prop + " tier", "  invariant"))]
 detected = rc.returncode == 1 and any(l.startswith("VIOLATION") for l in lines)
 print("check %s: exit=%d detected=%s (%.0fs)" % (prop, rc.returncode, detected, time.time() - t0))
@@ -57,4 +57,4 @@ shutil.copy(patch, os.path.join(d, "patch.diff"))
 shutil.copy(demo, os.path.join(d, "demo.py"))
 json.dump({"name": name, "property": prop, "needs": needs, "base_commit": head, "confirmed": {"tests_pass_with_patch": tests_ok, "demo_rc_without_patch": r0.returncode, "demo_rc_with_patch": r1.returncode},
            "check": {"cmd": "./check %s --tier quick" % prop, "exit": rc.returncode, "detected": detected, "lines": lines[:8]}, "ran": ran,
-           "how_to_rerun": "git -C /repo apply /verif/seeded/%s/patch.diff && (cd /verif && ./check %s); git -C /repo checkout -- ." % (name, prop)}, open(os.path.join(d, "meta.json"), "w"), indent=1)
+           "how_to_rerun": "/verif/selftest/recheck_seeded.sh %s   (or: git -C /repo apply /verif/seeded/%s/patch.diff && (cd /verif && ./check %s); git -C /repo checkout -- .)" % (name, name, prop)}, open(os.path.join(d, "meta.json"), "w"), indent=1)
